@@ -6,3 +6,5 @@ export GOCACHE="${GOCACHE:-$PWD/.work/gocache}"
 mkdir -p .work evidence replays
 ( cd mc && go build -o ../.work/verifmc . ) || exit 1
 echo "setup ok"
+# warm the build cache for the race pass and the overlay build used by C20 (first -race build is slow)
+( cd mc && go build -race -o ../.work/racerun ./cmd/racerun ) || exit 1
